@@ -18,8 +18,8 @@ def is_ceil_div(n, s, p):
 def range_header(lo, hi=None):
     """'bytes=<lo>-<hi>' / 'bytes=<lo>-' as a structured string."""
     if hi is None:
-        return FStr(['bytes=', lo, '-'])
-    return FStr(['bytes=', lo, '-', hi])
+        return FStr(['bytes=', lo, '-'], spec=True)
+    return FStr(['bytes=', lo, '-', hi], spec=True)
 
 
 def zand(*xs):
